@@ -19,7 +19,7 @@ ASSUMPTIONS = [
     'nesting deeper than 64 levels is outside the quantifier and not generated',
 ]
 SHARDS = {'quick': 8, 'thorough': 16}
-TIMEOUT = {'quick': 300, 'thorough': 1800}
+TIMEOUT = {'quick': 900, 'thorough': 3600}
 ANCHORS = [
     ('pjrpc/server/dispatcher.py', 'Dispatcher.dispatch'),
     ('pjrpc/server/dispatcher.py', 'AsyncDispatcher.dispatch'),
